@@ -264,6 +264,44 @@ func (d *Driver) report() int {
 		violations++
 		exit = 1
 	}
+	// a function that discharged obligations of this property on the unchanged tree and can no longer be
+	// brought under its contract in SOME instantiation (its other instantiations still produce the same
+	// obligation names, so the inventory alone does not notice): not decided = not passed
+	for _, np := range d.notProved {
+		// "<target>: <func>: <message>"  or  "<target>:<func>: <message>"
+		target, fn := "", ""
+		if i := strings.Index(np, ": "); i > 0 {
+			target = np[:i]
+			rest := np[i+2:]
+			if j := strings.Index(target, "]:"); j > 0 {
+				fn, target = target[j+2:], target[:j+1]
+			} else if j := strings.Index(target, ":"); j > 0 && !strings.HasPrefix(target, "rt[") {
+				fn, target = target[j+1:], target[:j]
+			}
+			if fn == "" {
+				if j := strings.Index(rest, ": "); j > 0 {
+					fn = rest[:j]
+				}
+			}
+		}
+		if fn == "" {
+			continue
+		}
+		prefix := stripTarget(target+":") + fn + ":"
+		if strings.HasPrefix(fn, "instantiation does not type-check") {
+			prefix, fn = "rt:", "typecheck" // the whole instantiation is gone
+		}
+		if !d.inventoryHasPrefix(prop, prefix) {
+			continue
+		}
+		name := target + ":" + fn + ":contract-applies"
+		rp := filepath.Join(d.Verif, "replays", sanitize(name)+".json")
+		b, _ := json.MarshalIndent(map[string]any{"obligation": name, "result": "not-generated", "reason": "the function can no longer be verified against its contract in this instantiation: " + np, "reproduced_on_real_code": false}, "", " ")
+		os.WriteFile(rp, b, 0o644)
+		fmt.Printf("VIOLATION property=%s replay=%s obligation=%s result=not-generated (function left the verifiable subset: %s) no-failing-input-found\n", prop, rp, name, np)
+		violations++
+		exit = 1
+	}
 	// known findings
 	var knownLines []string
 	for _, k := range d.known {
@@ -318,6 +356,33 @@ func (d *Driver) checkInventory(prop string, have []string) []string {
 		}
 	}
 	return missing
+}
+
+func (d *Driver) inventoryHasPrefix(prop, prefix string) bool {
+	b, err := os.ReadFile(filepath.Join(d.Verif, "obligations.json"))
+	if err != nil {
+		return false
+	}
+	var inv map[string][]string
+	if json.Unmarshal(b, &inv) != nil {
+		return false
+	}
+	if prop == "ALL" {
+		for _, l := range inv {
+			for _, n := range l {
+				if strings.HasPrefix(n, prefix) {
+					return true
+				}
+			}
+		}
+		return false
+	}
+	for _, n := range inv[prop] {
+		if strings.HasPrefix(n, prefix) {
+			return true
+		}
+	}
+	return false
 }
 
 // stripTarget: "rt[o0b0l0s0]:read:ensures[x]" -> "rt:read:ensures[x]" (variant-independent inventory key)
